@@ -273,7 +273,7 @@ class C04(Check):
         toks = [["R"], ["A"], ["D"], ["W1"]] + [["X:" + f, "R"] for f in faults]
         for vi, (vcfg, hfile, ruri) in enumerate(variants):
             vcfg = dict(vcfg, target="hroot/" + hfile if vcfg["filemode"] else "hroot")
-            depth = (3 if vi == 0 else 2) if tier == "quick" else (4 if vi == 0 else 3)
+            depth = (3 if vi == 0 else 2) if tier == "quick" else 3
             k = 0
             for n in range(1, depth + 1):
                 for seq in itertools.product(toks, repeat=n):
@@ -334,7 +334,7 @@ class C04(Check):
                                 seen.add(u)
                                 yield {"tftp": tftp, "cfg": cfg, "uri": u}
                     # random longer requests and over-long segments
-                    for _ in range(150 if tier == "quick" else 500):
+                    for _ in range(150 if tier == "quick" else 300):
                         k = rng.randrange(n + 1, n + 6)
                         u = pre + "".join(rng.choice(ALPHABET) if rng.random() < 0.85 else
                                           rng.choice(["%%%02x" % rng.randrange(256), chr(rng.randrange(1, 256)),
